@@ -772,6 +772,10 @@ class Runner:
             k = o['op']
             if k in ('touch_identity', 'new_identity') and nb(o['_id']) not in final.ids:
                 self.viol('repeat-no-effect', k, f'{where}; repeating it returned normally but the identity does not exist')
+            elif k == 'touch_identity' and nb(o['_id']) not in pre.ids and not final.ids[nb(o['_id'])]['keys']:
+                # documented: an identity created by touch_identity has a default key and self-signed certificate
+                self.viol('repeat-no-effect', k, f'{where}; repeating it returned normally but the identity it was to create '
+                                                  f'has no key (no signer can be obtained for it)')
             if k == 'new_key' and o.get('key_id'):
                 kn = nb(Name.normalize(o['_id']) + [enc.Component.from_str('KEY'), enc.Component.from_str(o['key_id'])])
                 rec = final.ids.get(nb(o['_id']))
@@ -1000,6 +1004,11 @@ class Runner:
                 expect_error = True
             if exp_cert == 'MULTIPLE' or exp_key == 'MULTIPLE':
                 return
+            # the documented argument type is NonStrictName: the same name as URI string or encoded Name works as well
+            form = o.get('name_form', 'list')
+            for fld in ('key', 'cert'):
+                if shape == fld and fld in args and form != 'list':
+                    args[fld] = Name.to_str(args[fld]) if form == 'str' else bytes(Name.to_bytes(args[fld]))
             locator = None
             if o.get('key_locator') and shape not in ('digest', 'none'):
                 locator = '/loc/' + o['key_locator']
@@ -1184,6 +1193,8 @@ def execute(sc, keep_events=False):
 def generate(rng, seed, tier='quick'):
     n = rng.randint(3, 14 if tier == 'quick' else 25)
     ids = ['a', 'b', 'c']
+    if rng.random() < 0.2:
+        ids = ['a', 'KEY/s', 'KEY/s/t']       # identity names that contain a KEY component themselves, one a prefix of the other
     ops = []
     nkeys = 0
     ncerts = 0
@@ -1232,6 +1243,8 @@ def generate(rng, seed, tier='quick'):
         elif x < 0.93:
             shape = rng.choice(['empty', 'identity', 'identity_obj', 'key', 'key_obj', 'cert', 'cert_obj', 'digest', 'none'])
             op = {'op': 'get_signer', 'shape': shape, 'id': rng.choice(ids), 'key': rng.randint(0, 7), 'cert': rng.randint(0, 9)}
+            if shape in ('key', 'cert') and rng.random() < 0.4:
+                op['name_form'] = rng.choice(['str', 'wire'])
             if rng.random() < 0.3:
                 op['key_locator'] = rng.choice(['x', 'y'])
             ops.append(op)
